@@ -64,11 +64,18 @@ _PAIR = re.compile(r"\((\d+),(\d+)\)")
 
 
 def dec_to_int(txt: str, places: int) -> Optional[int]:
-    """'123.4' -> 1234 (places=1); None when the text is not a plain decimal with exactly `places` decimals"""
-    m = re.fullmatch(r"(-?)(\d+)\.(\d+)", txt)
-    if not m or len(m.group(3)) != places:
+    """'123.4' -> 1234 (places=1). A plain decimal with fewer decimals ('123', '123.') or with additional zeros is the
+    same number and is accepted (the column is a float column; how many digits are printed is not a property); None when
+    the text is not a plain decimal or carries more significant decimals than `places`"""
+    m = re.fullmatch(r"(-?)(\d+)(?:\.(\d*))?", txt)
+    if not m:
         return None
-    v = int(m.group(2)) * 10 ** places + int(m.group(3))
+    frac = m.group(3) or ""
+    if len(frac) > places:
+        if frac[places:].strip("0"):
+            return None
+        frac = frac[:places]
+    v = int(m.group(2)) * 10 ** places + int(frac.ljust(places, "0") or 0)
     return -v if m.group(1) else v
 
 
@@ -162,6 +169,29 @@ def run_cli(args: List[str], timeout: int = 600, cwd: Optional[str] = None, hash
     p = subprocess.run([PY, "-m", "src.program"] + args, cwd=cwd or REPO, env=env, stdout=subprocess.PIPE,
                        stderr=subprocess.STDOUT, text=True, timeout=timeout)
     return p.returncode, p.stdout[-3000:]
+
+
+def run_cli_to_stdout(args: List[str], capture_path: str, via: str = "pipe", timeout: int = 600) -> Tuple[int, str]:
+    """the CLI without -o ("Stdout is used if omitted"): stdout is a pipe (via="pipe": what `coma ... | tool` gives) or a
+    regular file the shell redirected it to (via="file"); the captured text ends up in capture_path either way.
+    args: an arg_list(...) result; its -o pair is removed."""
+    a = list(args)
+    if "-o" in a:
+        k = a.index("-o")
+        del a[k:k + 2]
+    env = dict(os.environ)
+    env["PYTHONPATH"] = REPO
+    env.pop("COMA_VERIF", None)
+    if via == "pipe":
+        p = subprocess.run([PY, "-m", "src.program"] + a, cwd=REPO, env=env, stdout=subprocess.PIPE,
+                           stderr=subprocess.PIPE, text=True, timeout=timeout)
+        with open(capture_path, "w") as f:
+            f.write(p.stdout)
+    else:
+        with open(capture_path, "w") as f:
+            p = subprocess.run([PY, "-m", "src.program"] + a, cwd=REPO, env=env, stdout=f,
+                               stderr=subprocess.PIPE, text=True, timeout=timeout)
+    return p.returncode, (p.stderr or "")[-3000:]
 
 
 _sequential_installed = False
